@@ -332,7 +332,11 @@ class DerivedTypeArgumentsTransformation(Transformation):
         def assumed_dim_or_none(shape):
             if not shape:
                 return None
-            return tuple(RangeIndex((None, None)) for _ in shape)
+            # keep non-default lower bounds: a plain assumed-shape dummy `(:)` would re-base the member array to 1
+            return tuple(
+                RangeIndex((s.lower if isinstance(s, RangeIndex) and s.lower is not None else None, None))
+                for s in shape
+            )
 
         # Build the arguments map to update the call signature
         arguments_map = {}
